@@ -30,6 +30,7 @@ def check(m, run):
     fi = m.func('operations.remove_knot')
     from .. import skel_drivers as _sd
     _sd.kir3(m, run, ('insert', 'remove'))   # A5.8 undoes A5.1 exactly: removing t of r inserted copies leaves the net with r - t copies
+    oc.shared_dependencies(m, run)
     oc.block_rules(m, run, fi, 'remove')
     oc.wrapper_rules(m, run, 'remove_knot', '_remove_knot_func')
     oc.optional_coordinate_rule(m, run)
